@@ -162,7 +162,7 @@ theorem SC_readConstant (c : UInt8) : SC cx.inp.len c (readConstant cx c) := by
 
 theorem S_doReadReference : S cx.inp.len (doReadReference cx) := by
   unfold doReadReference
-  have := S_readUIntUB ps cx.h.num_vars_and_exprs
+  have := S_readUIntUB ps (Site.ubRef cx.h)
   repeat sstep
 
 theorem S_readReference : S cx.inp.len (readReference cx) := by
@@ -195,7 +195,7 @@ theorem S_readNumericOp (op : Nat) : S cx.inp.len (readNumericOp cx rec op) := b
 theorem SC_readNumericC (code : UInt8) (iz : Bool) : SC cx.inp.len code (readNumericC cx rec code iz) := by
   unfold readNumericC
   have h3 := hrec .sym
-  have := S_readUIntUB ps cx.h.num_funcs
+  have := S_readUIntUB ps (Site.ubCall cx.h)
   have := S_readOpCode ps
   have := S_doReadReference ps
   have hn := fun op => S_readNumericOp ps hrec op
@@ -239,13 +239,13 @@ theorem S_readExpr : ∀ (fuel : Nat) (m : Mode), S cx.inp.len (readExpr cx fuel
 
 theorem S_readLinearTerms (n : Nat) (silent : Bool) : S cx.inp.len (readLinearTerms cx n silent) := by
   unfold readLinearTerms
-  have := S_readUIntUB ps cx.h.num_vars
+  have := S_readUIntUB ps (Site.ubTermVar cx.h)
   repeat sstep
 
 theorem S_readLinearExpr (isObj : Bool) : S cx.inp.len (readLinearExpr cx isObj) := by
   unfold readLinearExpr
   have := fun ub => S_readUIntUB ps ub
-  have h2 := S_readUIntLU ps 1 (cx.h.num_vars + 1)
+  have h2 := S_readUIntLU ps Site.lbTerms (Site.ubTerms cx.h)
   have h3 := fun n b => S_readLinearTerms ps n b
   repeat (first | exact this _ | exact h3 _ _ | sstep)
 
